@@ -10,6 +10,7 @@ import (
 	"testing"
 	"time"
 
+	"google.golang.org/protobuf/proto"
 	"pgregory.net/rapid"
 
 	"verif/internal/ctfex"
@@ -27,55 +28,89 @@ type ConcCase struct {
 	Workers    int
 	PerWorker  int
 	QuotaUsers bool
+	// Twin: a second log (own key, own backend, own clock) is served by the same process; the same chains are
+	// logged in both and resubmitted to both at the same time, while each backend takes a moment per write.
+	Twin bool
 }
 
 func genConc(t *rapid.T) ConcCase {
 	c := ConcCase{Workers: rapid.IntRange(2, 8).Draw(t, "workers"), PerWorker: rapid.IntRange(20, 120).Draw(t, "per"), QuotaUsers: rapid.Bool().Draw(t, "quota")}
 	n := rapid.IntRange(2, 6).Draw(t, "n")
 	for i := 0; i < n; i++ {
-		c.Specs = append(c.Specs, world.GenSpec(t, fmt.Sprintf("c%d", i)))
+		c.Specs = append(c.Specs, world.GenSpecX(t, fmt.Sprintf("c%d", i)))
 	}
+	c.Twin = rapid.Bool().Draw(t, "twin")
 	return c
 }
 
 func checkConc(t *testing.T, c ConcCase) (v harness.Verdict) {
-	logKey := keys.Pick("p256", 2)
-	be := reflog.New(6962, 1)
-	clock := ctfex.NewClock(time.UnixMilli(1650000000000))
-	inst, err := ctfex.New(ctfex.Opts{LogKey: logKey, Roots: world.Roots(), Backend: be, Clock: clock, Inst: quotaOpts(c.QuotaUsers)})
-	if err != nil {
-		t.Fatalf("instance: %v", err)
-	}
 	type logged struct {
-		b     *world.Built
 		path  string
 		body  []byte
 		ts    uint64
 		input func(ts uint64, ext []byte) []byte
 	}
-	var items []logged
-	for i, s := range c.Specs {
-		b := world.Build(s)
-		path := "/ct/v1/add-chain"
-		if s.Precert {
-			path = "/ct/v1/add-pre-chain"
-		}
-		clock.Add(time.Duration(i+1) * 7 * time.Millisecond)
-		body := body(b.Submit)
-		rsp := inst.Post(path, body)
-		var r addChainRsp
-		if rsp.Status != 200 || json.Unmarshal(rsp.Body, &r) != nil || r.Timestamp == nil {
-			v.Failf("valid-chain-refused", "item %d: %d %s", i, rsp.Status, rsp.Body)
-			return v
-		}
-		entry := b.Entry()
-		items = append(items, logged{b: b, path: path, body: body, ts: *r.Timestamp, input: func(ts uint64, ext []byte) []byte {
-			in, _ := rfc6962.SCTSignatureInput(0, ts, entry, ext)
-			return in
-		}})
+	type logInst struct {
+		key   *keys.Key
+		inst  *ctfex.Instance
+		items []logged
+		id    [32]byte
 	}
-	clock.Add(time.Hour) // resubmissions happen at a later clock: a fresh timestamp would be visible
-	wantID := sha256.Sum256(logKey.SPKI)
+	nLogs := 1
+	if c.Twin {
+		nLogs = 2
+		v.Class("two-logs-in-one-process")
+	}
+	var logs []*logInst
+	for l := 0; l < nLogs; l++ {
+		lg := &logInst{key: keys.Pick("p256", 2+5*l)}
+		be := reflog.New(int64(6962+l), 1)
+		if c.Twin {
+			// each write takes the backend a moment, so that requests for the same certificate overlap in the two logs
+			be.Intercept = func(call reflog.Call) (proto.Message, error, bool) {
+				if call.RPC == "QueueLeaf" {
+					time.Sleep(300 * time.Microsecond)
+				}
+				return nil, nil, false
+			}
+		}
+		clock := ctfex.NewClock(time.UnixMilli(1650000000000 + int64(l)*86400000))
+		inst, err := ctfex.New(ctfex.Opts{LogKey: lg.key, Roots: world.Roots(), Backend: be, Clock: clock, Inst: quotaOpts(c.QuotaUsers), Prefix: fmt.Sprintf("log%d", l)})
+		if err != nil {
+			t.Fatalf("instance: %v", err)
+		}
+		lg.inst = inst
+		lg.id = sha256.Sum256(lg.key.SPKI)
+		seen := map[string]uint64{}
+		for i, s := range c.Specs {
+			b := world.Build(s)
+			path := "/ct/v1/add-chain"
+			if b.Spec.Precert {
+				path = "/ct/v1/add-pre-chain"
+			}
+			clock.Add(time.Duration(i+1) * 7 * time.Millisecond)
+			body := body(b.Submit)
+			rsp := inst.Post(path, body)
+			var r addChainRsp
+			if rsp.Status != 200 || json.Unmarshal(rsp.Body, &r) != nil || r.Timestamp == nil {
+				v.Failf("valid-chain-refused", "log %d item %d: %d %s", l, i, rsp.Status, rsp.Body)
+				return v
+			}
+			ts := *r.Timestamp
+			if first, ok := seen[string(b.Leaf.DER)]; ok {
+				ts = first // the same certificate again (a root on its own): the first timestamp stands
+			} else {
+				seen[string(b.Leaf.DER)] = ts
+			}
+			entry := b.Entry()
+			lg.items = append(lg.items, logged{path: path, body: body, ts: ts, input: func(ts uint64, ext []byte) []byte {
+				in, _ := rfc6962.SCTSignatureInput(0, ts, entry, ext)
+				return in
+			}})
+		}
+		clock.Add(time.Hour) // resubmissions happen at a later clock: a fresh timestamp would be visible
+		logs = append(logs, lg)
+	}
 	var mu sync.Mutex
 	var wg sync.WaitGroup
 	for w := 0; w < c.Workers; w++ {
@@ -83,8 +118,15 @@ func checkConc(t *testing.T, c ConcCase) (v harness.Verdict) {
 		go func(w int) {
 			defer wg.Done()
 			for k := 0; k < c.PerWorker; k++ {
-				it := items[(w*7+k*3+k/5)%len(items)]
-				rsp := inst.Post(it.path, it.body)
+				// the workers walk the items in step, alternating between the logs, so that the same certificate is
+				// in flight in both logs at once
+				lg := logs[(w+k/2)%len(logs)]
+				n := (k*3 + k/5) % len(lg.items)
+				if !c.Twin {
+					n = (w*7 + k*3 + k/5) % len(lg.items)
+				}
+				it := lg.items[n]
+				rsp := lg.inst.Post(it.path, it.body)
 				var r addChainRsp
 				fail := func(sig, f string, a ...any) { mu.Lock(); v.Failf(sig, f, a...); mu.Unlock() }
 				if rsp.Status != 200 || json.Unmarshal(rsp.Body, &r) != nil || r.Timestamp == nil || r.Signature == nil || r.ID == nil || r.Extensions == nil {
@@ -92,12 +134,12 @@ func checkConc(t *testing.T, c ConcCase) (v harness.Verdict) {
 					return
 				}
 				if *r.Timestamp != it.ts {
-					fail("duplicate-timestamp", "concurrent resubmission of entry (first timestamp %d) got timestamp %d", it.ts, *r.Timestamp)
+					fail("duplicate-timestamp", "concurrent resubmission of entry (first timestamp in this log %d) got timestamp %d", it.ts, *r.Timestamp)
 				}
 				id, _ := base64.StdEncoding.DecodeString(*r.ID)
 				ext, _ := base64.StdEncoding.DecodeString(*r.Extensions)
 				sigb, _ := base64.StdEncoding.DecodeString(*r.Signature)
-				if !bytes.Equal(id, wantID[:]) {
+				if !bytes.Equal(id, lg.id[:]) {
 					fail("log-id", "wrong log id under concurrency")
 				}
 				ds, rest, err := rfc6962.DecodeDS(sigb)
@@ -105,7 +147,7 @@ func checkConc(t *testing.T, c ConcCase) (v harness.Verdict) {
 					fail("bad-signature-encoding", "signature field: %v", err)
 					return
 				}
-				if err := verifySig(logKey.Pub, ds, it.input(*r.Timestamp, ext)); err != nil {
+				if err := verifySig(lg.key.Pub, ds, it.input(*r.Timestamp, ext)); err != nil {
 					fail("sct-signature", "under %d concurrent submitters the SCT returned for an entry does not verify over THAT entry at timestamp %d (another entry's SCT?): %v", c.Workers, *r.Timestamp, err)
 				}
 			}
@@ -120,6 +162,6 @@ func checkConc(t *testing.T, c ConcCase) (v harness.Verdict) {
 // Concurrent is the concurrent-resubmission sub-property of C01.
 var Concurrent = harness.Define(harness.Opts{
 	Name:  "concurrent-resubmit",
-	Rule:  "2-6 generated chains logged once, then 2-8 goroutines resubmit them 20-120 times each at the same time at a later clock; every answer must carry the log id, the first submission's timestamp and a signature that verifies over the entry submitted in that very request. Every case is non-trivial",
+	Rule:  "2-6 generated chains logged once - in half of the cases in two logs (own keys, backends that take 0.3 ms per write, clocks a day apart) served by one process - then 2-8 goroutines resubmit them 20-120 times each at the same time at a later clock, the same certificate to both logs at once; every answer must carry the log id, the first submission's timestamp and a signature that verifies over the entry submitted in that very request. Every case is non-trivial",
 	Quick: 40, Thorough: 300,
 }, genConc, checkConc)
